@@ -11,6 +11,7 @@ CONSTANTS
   MaxStray = 1
   MaxFault = 1
   SubscribeFirst = FALSE
+  CloneCounts = TRUE
 SPECIFICATION Spec
 INVARIANTS OwnReply ReplyWasSent NoReplyImmediate IoErrOnlyAfterFault Complete NoLostReply
 
